@@ -158,6 +158,7 @@ type Site struct {
 }
 
 type Output struct {
+	ScanDocs []Site // whole replies of the scanWriter commands, assembled from fragments by scanGrammar
 	Docs     []Site
 	Values   []Site
 	Frags    []Site
@@ -707,7 +708,84 @@ func Extract(repo string) (*Output, error) {
 			x.function(fd)
 		}
 	}
+	out.scanGrammar()
 	return out, nil
+}
+
+// scanGrammar assembles the whole reply of the scanWriter commands from the extracted fragments.
+// The ORDER is written here by hand after internal/server/scanner.go: the handler writes
+// {"ok":true, writeFoot writes the field-name list, the opening of the result list, one
+// writeFilled per object, the closing bracket, count and cursor, the handler writes elapsed.
+// Every piece must be one of the extracted fragments (looked up by function and by template), so
+// a reply expression that changes or disappears breaks the assembly (listed as Unknown, the
+// template is then missing and real replies no longer match); the harness checks that every real
+// reply of these commands is an instance of the assembled template.
+func (o *Output) scanGrammar() {
+	missing := false
+	need := func(fn string, want *T) *T {
+		for _, f := range o.Frags {
+			if strings.HasPrefix(f.Name, fn+":") && f.T.String() == want.String() {
+				return f.T
+			}
+		}
+		o.Unknown = append(o.Unknown, "scan grammar: no fragment "+want.String()+" in "+fn)
+		missing = true
+		return want
+	}
+	s3 := func(a, b, c *T) *T { return seq(seq(a, b), c) }
+	list := func(open, item, comma, closer *T) *T {
+		// open ( closer | item (comma item)* closer )
+		return seq(open, &T{Kind: "Alt", A: closer, B: s3(item, star(seq(comma, item)), closer)})
+	}
+	wf, wl := "writeFoot", "writeFilled"
+	comma := need(wl, lit(","))
+	fieldsTop := list(need(wf, lit(`,"fields":[`)), need(wf, hole("HStr")), need(wf, lit(",")), need(wf, lit("]")))
+	fieldsObj := list(need(wl, lit(`,"fields":{`)), need(wl, s3(hole("HStr"), lit(":"), hole("HJson"))), need(wl, lit(",")), need(wl, lit("}")))
+	fieldsArr := list(need(wl, lit(`,"fields":[`)), need(wl, hole("HJson")), need(wl, lit(",")), need(wl, lit("]")))
+	jsfields := &T{Kind: "Alt", A: lit(""), B: &T{Kind: "Alt", A: fieldsObj, B: fieldsArr}}
+	dist := &T{Kind: "Alt", A: need(wl, seq(lit(`,"distance":`), hole("HJson"))), B: lit("")}
+	idItem := &T{Kind: "Alt",
+		A: need(wl, seq(seq(seq(seq(lit(`{"id":`), hole("HStr")), lit(`,"distance":`)), hole("HJson")), lit("}"))),
+		B: need(wl, hole("HStr"))}
+	objItem := func(payload *T) *T {
+		return seq(seq(seq(seq(need(wl, seq(lit(`{"id":`), hole("HStr"))), payload), jsfields), dist), need(wl, lit("}")))
+	}
+	closeList := need(wf, lit("]"))
+	kinds := []*T{
+		list(need(wf, lit(`,"ids":[`)), idItem, comma, closeList),
+		list(need(wf, lit(`,"objects":[`)), objItem(need(wl, seq(lit(`,"object":`), hole("HJson")))), comma, closeList),
+		list(need(wf, lit(`,"points":[`)), objItem(need(wl, seq(lit(`,"point":`), hole("HJson")))), comma, closeList),
+		list(need(wf, lit(`,"bounds":[`)), objItem(need(wl, seq(lit(`,"bounds":`), hole("HJson")))), comma, closeList),
+		list(need(wf, lit(`,"hashes":[`)), objItem(need(wl, s3(lit(`,"hash":"`), hole("HRaw"), lit(`"`)))), comma, closeList),
+		lit(""), // COUNT
+	}
+	var body *T
+	for i, k := range kinds {
+		if i == 0 {
+			body = k
+		} else {
+			body = &T{Kind: "Alt", A: body, B: k}
+		}
+	}
+	body = seq(&T{Kind: "Alt", A: fieldsTop, B: lit("")}, body)
+	// MVT tiles: ,"mvt":" base64 "
+	mvt := s3(need(wf, lit(`,"mvt":"`)), hole("HRaw"), need(wf, lit(`"`)))
+	tail := seq(need(wf, seq(lit(`,"count":`), hole("HInt"))), need(wf, seq(lit(`,"cursor":`), hole("HInt"))))
+	for _, fn := range []string{"cmdScan", "cmdNearby", "cmdWITHINorINTERSECTS", "cmdSearch"} {
+		head := need(fn, lit(`{"ok":true`))
+		elapsed := need(fn, s3(lit(`,"elapsed":"`), hole("HDur"), lit(`"}`)))
+		doc := seq(seq(seq(head, &T{Kind: "Alt", A: mvt, B: body}), tail), elapsed)
+		pos := ""
+		for _, f := range o.Frags {
+			if strings.HasPrefix(f.Name, fn+":") {
+				pos = f.Pos
+				break
+			}
+		}
+		if !missing {
+			o.ScanDocs = append(o.ScanDocs, Site{Name: fn + " + writeFoot + writeFilled", Pos: pos, Kind: "doc", T: doc})
+		}
+	}
 }
 
 func (x *xl) function(fd *ast.FuncDecl) {
@@ -913,6 +991,7 @@ func (o *Output) Coq() string {
 		sb.WriteString("].\n\n")
 	}
 	emit("templates", o.Docs)
+	emit("scan_templates", o.ScanDocs)
 	emit("value_templates", o.Values)
 	emit("fragments", o.Frags)
 	sb.WriteString(fmt.Sprintf("Definition n_unknown : nat := %d%%nat.\n", len(o.Unknown)))
